@@ -104,6 +104,7 @@ type Frame struct {
 }
 
 type Exec struct {
+	exitOnly map[*ast.BlockStmt]bool // blocks of the loop body being analysed that always leave the loop
 	curInst     []types.Type            // type arguments of the generic callee whose contract is being applied
 	addrCells   map[*ast.UnaryExpr]Term // &x.fld arguments of the call being executed -> their cell
 	assignLHS   string
@@ -929,10 +930,38 @@ func (e *Exec) forStmt(x *ast.ForStmt, st *State, fr *Frame) Flow {
 	}
 	ord, invs := e.loopInvs(fr, x)
 	entry := fr.entry
+	// counting loop `for i := a; ...; i++` whose body does not assign i: i never drops below its initial value, and the
+	// number of completed iterations (idx<ord>, the same name a range loop's hidden counter has) is i - a
+	ctrKey, ctrInit, ik := "", Term{}, ""
+	if as, ok := x.Init.(*ast.AssignStmt); ok && as.Tok == token.DEFINE && len(as.Lhs) == 1 && len(as.Rhs) == 1 {
+		if id, ok := as.Lhs[0].(*ast.Ident); ok {
+			if inc, ok := x.Post.(*ast.IncDecStmt); ok && inc.Tok == token.INC {
+				if pid, ok := unparen(inc.X).(*ast.Ident); ok && fr.info.Defs[id] != nil && fr.info.Uses[pid] == fr.info.Defs[id] {
+					k := e.keyOf(fr.info.Defs[id])
+					if _, assigned := e.effectsOf(fr, x.Body).locals[k]; !assigned {
+						if _, escaped := st.vars["&addr!"+k]; !escaped {
+							if v, ok := st.vars[k]; ok && v.T.K == KInt {
+								ctrKey, ctrInit = k, v
+								ik = fmt.Sprintf("$i!%d", int(x.Pos()))
+								fr.names[fmt.Sprintf("idx%d", ord)] = ik
+								fr.ntypes[fmt.Sprintf("idx%d", ord)] = tInt
+								e.set(st, ik, Term{"0", tInt})
+							}
+						}
+					}
+				}
+			}
+		}
+	}
 	e.checkInvs(st.clone(), fr, ord, invs, "entry", entry) // on a copy: the loop head assumes the invariant afresh
 	eff := e.effectsOf(fr, x.Body, x.Post, x.Cond)
 	head := st.clone()
 	e.loopHavoc(head, fr, eff, ord)
+	if ctrKey != "" {
+		cur := e.get(head, ctrKey, ctrInit.T)
+		e.assume(head, fmt.Sprintf("(>= %s %s)", cur.S, ctrInit.S))
+		e.set(head, ik, Term{fmt.Sprintf("(- %s %s)", cur.S, ctrInit.S), tInt})
+	}
 	e.assumeInvs(head, fr, invs, entry)
 	headSnap := head.clone()
 	var exits []*State
@@ -955,6 +984,10 @@ func (e *Exec) forStmt(x *ast.ForStmt, st *State, fr *Frame) Flow {
 	after := e.merge(append([]*State{f.norm}, f.cont...))
 	if !after.dead() && x.Post != nil {
 		after = e.stmt(x.Post, after, fr).norm
+	}
+	if !after.dead() && ctrKey != "" {
+		cur := e.get(after, ctrKey, ctrInit.T)
+		e.set(after, ik, Term{fmt.Sprintf("(- %s %s)", cur.S, ctrInit.S), tInt})
 	}
 	if !after.dead() {
 		e.checkInvs(after, fr, ord, invs, "preserved", entry)
